@@ -369,6 +369,19 @@ def obligations(tier):
             o.append(Obl(f"single-threaded[{dn},optimize={opt}]", (lambda dn, opt: lambda **kw: single_threaded(dn, opt, **kw))(dn, opt),
                          [(f"s{k}", 0, 1) for k in range(8)], setup=setup, functions=fns, wall_s=wall,
                          bounds=f"real finalized plan '{dn}', every subset of operations marked computed (resume)", witness_rule=lambda m: any(m.values())))
+    # which operations a resumed run may leave out is itself part of the barrier: an operation left out must have written every chunk
+    # of every output, else its consumers read fill values (decided by the real already_computed on symbolic store states: C09's harness)
+    from harness import c09
+
+    V9 = []
+    for k in range(6):
+        V9 += [(f"present{k}", 0, 1), (f"attr{k}", 0, 1), (f"zerod{k}", 0, 1), (f"init{k}", 0, 4)]
+    for t in (("multi-output",) if tier == "quick" else ("multi-output", "diamond", "reduce-chain")):
+        o.append(Obl(f"resume-read-barrier[{t}]", (lambda t: lambda **kw: c09.resume_h(t, 0, 1, **kw))(t), V9, functions=fns + [cp.FinalizedPlan.execute, cp.already_computed], wall_s=wall,
+                     bounds="real finalized plan; per produced array: present/absent, completeness attribute, 0-d or not, nchunks_initialized 0..nchunks (every crash point between two "
+                            "chunk writes, over-approximated): an executed operation never reads an incomplete array whose producer was skipped",
+                     outside="values; what Zarr reports for a half-written key", stubs=["StoreState", "visiting executor"],
+                     witness_rule=lambda m: any(m[f"init{k}"] > 0 for k in range(6))))
     from harness import execwire  # the real thread/process executor entry points on the same plans
 
     o.extend(execwire.obligations(tier, fns, wall))
